@@ -53,7 +53,12 @@ def main():
     build_coq()
     proof_coverage(PROP, res)
     n = 8 if a.tier == "quick" else 50
-    if a.replay:
+    replay_seq = None
+    if a.replay and "sequence" in json.load(open(a.replay))["input"]:
+        rp = json.load(open(a.replay))
+        replay_seq = [{"engine": rp.get("engine", "gin"), "sequence": [(x["edit"], x["project"]) for x in rp["input"]["sequence"]]}]
+        projects = [rp["input"]["sequence"][-1]["project"]]
+    elif a.replay:
         projects = [json.load(open(a.replay))["input"]]
     else:
         projects = []
@@ -207,11 +212,15 @@ def main():
                        "claim": "a request to the documented verb/path reaches exactly that method of that controller; "
                                 "verb/path pairs that were not annotated reach no controller method"})
     h.cleanup()
+    # ---- (4) sequences of generations in one process / through spec-and-routes: same obligation on every artifact
+    seqstats = R.seq_router_leg(res, PROP, rng, projects[:(1 if a.tier == "quick" else 5)], a.tier, explicit=replay_seq) \
+        if (replay_seq or not a.replay) else {}
     res.coverage["obligations"] = res.coverage.get("obligations", 0) + len(meta)
     res.coverage["discharged"] = res.coverage.get("discharged", 0) + len([1 for m_ in meta if m_[2] == "ok"]) - len(failing)
     kinds = {}
     for (_, _, _, _, kind, _) in rmeta:
         kinds[kind] = kinds.get(kind, 0) + 1
+    res.coverage["generation_sequences"] = seqstats
     res.coverage.update({
         "evaluations": len(reqs) + len(urls) * 5 + len(meta),
         "distinct_nontrivial": len(set((k, cn, mn, kind) for (k, cn, mn, e, kind, hd) in rmeta)),
